@@ -43,6 +43,7 @@ type ccCase struct {
 	StallUs    []int    `json:"stall_us,omitempty"` // the harness holds the policy lock for these intervals while the programs run
 	Race       bool     `json:"race,omitempty"`     // C19: listener installed, Wait/SaveCache/Close/hybrid operations enabled
 	Hybrid     bool     `json:"hybrid,omitempty"`
+	LoadStorm  bool     `json:"load_storm,omitempty"`
 	ShortTTL   bool     `json:"short_ttl,omitempty"` // C16: SetWithTTL uses 1-3 ms and the programs nap, so Gets meet expired entries that are still resident
 }
 
@@ -580,6 +581,7 @@ func execConc(c ccCase, x *verifkit.Ctx, lin, counters bool) (fail *verifkit.Fai
 	}
 	x.ClassIf(overlapWrites, "read-overlapping-write")
 	x.ClassIf(c.Loading, "loading")
+	x.ClassIf(c.LoadStorm, "load-storm")
 	x.ClassIf(c.Pool, "entry-pool")
 	x.ClassIf(c.Doorkeeper, "doorkeeper")
 	x.ClassIf(r.rangeN.Load() > 0, "range")
@@ -645,7 +647,22 @@ func genConc(forCounters bool) func(t *rapid.T) ccCase {
 				return ccOp{Op: rapid.SampledFrom([]string{"len", "size", "stats"}).Draw(t, "view"), Pert: pert}
 			}
 		})
-		if !forCounters && rapid.IntRange(0, 3).Draw(t, "readHeavy") == 0 {
+		if !forCounters && c.Loading && rapid.IntRange(0, 3).Draw(t, "loadStorm") == 0 {
+			// load storm: many goroutines missing on the same few keys at once (joined loads), with
+			// Deletes that keep the misses coming
+			c.Keys = rapid.IntRange(2, 4).Draw(t, "lsKeys")
+			ls := rapid.Custom(func(t *rapid.T) ccOp {
+				k := rapid.IntRange(0, c.Keys-1).Draw(t, "k")
+				if rapid.IntRange(0, 9).Draw(t, "op") < 7 {
+					return ccOp{Op: "lget", K: k}
+				}
+				return ccOp{Op: "del", K: k}
+			})
+			for g := 0; g < 8; g++ {
+				c.Progs = append(c.Progs, rapid.SliceOfN(ls, 100, 300).Draw(t, "prog"))
+			}
+			c.LoadStorm = true
+		} else if !forCounters && rapid.IntRange(0, 3).Draw(t, "readHeavy") == 0 {
 			// read-heavy programs under eviction pressure: many hits/loads racing eviction and entry reuse
 			c.MaxSize = rapid.SampledFrom([]int{8, 64}).Draw(t, "rhMaxsize")
 			c.Keys = 3 * c.MaxSize
